@@ -9,6 +9,8 @@ COMMON_NOTE = ("Trusted: Coq kernel (full .vo builds, Print Assumptions: no axio
                "state only through the modelled primitives; model and implementation are compared byte for byte (tokens, lines, literal buffer, errors, accessors, bulk view, iteration count, "
                "end-of-input mode stack) on every generated input in the listed build variants. ")
 P = {
+ "C01": ("Theorems (no axioms): for every program over the primitives the pending-statement stack is never empty (so the 9009 recovery branches are unreachable) and every position handed to the buffer is a text position; the production ';'* returns within budget without error for every length. Totality itself is tested: panics (catch_unwind), the 8n+64 iteration budget (hook, debug and release), internal errors and linear output on every stream incl. all truncations of the sample programs and 2^k repetitions of fragments; the model reproduces the iteration count exactly.",
+         "partial: no termination proof over all handlers yet (measure described in DESIGN.md §7 C01); memory growth not measured."),
  "C02": ("Theorems (no axioms): every token start is inside the text on a UTF-8 boundary (all inputs, all programs over the primitives); start offsets never decrease whenever the debug-profile run returns, in both profiles; the last token is EOF; every accessor succeeds on a well-formed buffer. First-token-after-BOM, single EOF and exact concatenation are tested by the oracle on every input.",
          "partial: sortedness is conditional on the debug run returning (C01); WFbuf of lexer output is evaluated (wfbuf_b), not proved."),
  "C03": ("Theorem C03_char_offsets (no axioms, unconditional): for every source, profile and feature setting every token and error offset is the position of a prefix whose character count is the reported character offset; proved once per primitive and lifted to every program over the primitives.",
